@@ -24,7 +24,7 @@ pub fn keyname_table() -> HashMap<String, u16> {
     m
 }
 
-/// "out:↓A" -> "d30"; other event kinds are kept as text with spaces removed.
+/// "out:↓A" -> "d30"; mouse/scroll/unicode/code events to short canonical tokens.
 pub fn canon_event(ev: &str, names: &HashMap<String, u16>) -> Option<String> {
     if ev.starts_with("t:") {
         return None;
@@ -42,6 +42,43 @@ pub fn canon_event(ev: &str, names: &HashMap<String, u16>) -> Option<String> {
             None => format!("{dir}?{name}"),
         });
     }
+    if let Some(rest) = ev.strip_prefix("out🖰:") {
+        let btn = |n: &str| match n {
+            "Left" => 0,
+            "Right" => 1,
+            "Mid" => 2,
+            "Forward" => 3,
+            "Backward" => 4,
+            _ => 9,
+        };
+        if let Some(n) = rest.strip_prefix('↓') {
+            return Some(format!("bd{}", btn(n)));
+        }
+        if let Some(n) = rest.strip_prefix('↑') {
+            return Some(format!("bu{}", btn(n)));
+        }
+        if let Some(m) = rest.strip_prefix("move ") {
+            let d = m.split(',').next().unwrap_or("?");
+            let dn = match d { "Up" => 0, "Down" => 1, "Left" => 2, "Right" => 3, _ => 9 };
+            return Some(format!("mv{dn}"));
+        }
+    }
+    if let Some(rest) = ev.strip_prefix("scroll:") {
+        let mut it = rest.split(',');
+        let d = it.next().unwrap_or("?");
+        let dist = it.next().unwrap_or("?");
+        let dn = match d { "Up" => 0, "Down" => 1, "Left" => 2, "Right" => 3, _ => 9 };
+        return Some(format!("sc{dn},{dist}"));
+    }
+    if let Some(rest) = ev.strip_prefix("outU:") {
+        return Some(format!("U{}", rest.chars().next().map(|c| c as u32).unwrap_or(0)));
+    }
+    if let Some(rest) = ev.strip_prefix("out-code:") {
+        let mut it = rest.split(';');
+        let c = it.next().unwrap_or("?");
+        let v = it.next().unwrap_or("?");
+        return Some(format!("C{},{}", c, if v == "Press" { "p" } else { "r" }));
+    }
     Some(ev.replace(' ', "_"))
 }
 
@@ -53,6 +90,11 @@ pub fn run_case(case: &Case, names: &HashMap<String, u16>) {
     use std::io::Write as _;
     let mut out = String::new();
     writeln!(out, "CASE {}", case.id).unwrap();
+    // options that Kanata keeps private are read from a separate parse of the same text
+    let opts = match std::panic::catch_unwind(|| kanata_parser::cfg::new_from_str(&case.cfg, case.files.clone())) {
+        Ok(Ok(c)) => Some(c.options),
+        _ => None,
+    };
     let parsed = std::panic::catch_unwind(|| Kanata::new_from_str(&case.cfg, case.files.clone()));
     let mut k = match parsed {
         Err(_) => {
@@ -71,7 +113,7 @@ pub fn run_case(case: &Case, names: &HashMap<String, u16>) {
     };
     let mut cu = dump::Customs::default();
     out.push_str("DUMP-BEGIN\n");
-    out.push_str(&dump::kanata_cfg(&k, &mut cu));
+    out.push_str(&dump::kanata_cfg(&k, opts.as_ref().expect("options"), &mut cu));
     out.push_str("DUMP-END\n");
     writeln!(out, "H {}", case.hist.join(" ")).unwrap();
     out.push_str("TRACE-BEGIN\n");
